@@ -54,3 +54,17 @@ def sampleStat (xs : List K) : Option (K × K) :=
     | _, _ => none
 
 end NiftyVerif.Welford
+
+namespace NiftyVerif.Welford
+
+variable {K : Type} [Add K] [Sub K] [Mul K] [Div K] [NatCast K]
+
+/-- parallel combination of two non-empty Welford states (Chan et al.); no counterpart in nifty.cl.probing — stated for
+    users of the streaming statistics that combine partial results -/
+def wMerge (a b : WState K) : WState K :=
+  let n := a.count + b.count
+  let delta := b.mean - a.mean
+  ⟨n, a.mean + delta * ((b.count : K) / (n : K)),
+   a.m2 + b.m2 + delta * delta * ((a.count : K) * (b.count : K) / (n : K))⟩
+
+end NiftyVerif.Welford
